@@ -735,6 +735,13 @@ pub fn execute(plan: &IoPlan, want_log: bool) -> RunResult {
                         format!("Err({})", errname(err))
                     )));
                 }
+                if st.zeros + st.fails == 0 && err.kind() != ErrorKind::Interrupted {
+                    done!(Some(mk(
+                        "serialize/4b interrupted-write-is-retried-or-reported-as-interrupted",
+                        format!("Ok(()) or Err(Interrupted): the writer accepted every byte offered, with {} EINTR", st.eintrs),
+                        format!("Err({})", errname(err))
+                    )));
+                }
                 if !(accepted.len() <= e.len() && accepted[..] == e[..accepted.len()]) {
                     done!(Some(mk(
                         "serialize/3 failed-write-leaves-prefix",
@@ -903,6 +910,15 @@ pub fn execute(plan: &IoPlan, want_log: bool) -> RunResult {
                         "deserialize/4 valid-record-must-be-read",
                         format!("Ok({}) on a stream that only delivered full or short reads", wv.short()),
                         format!("Err({}: {})", errname(e), e)
+                    )));
+                }
+                // EINTR is the only injected fault: the library may retry (read_exact does) or hand the
+                // interruption back, but any other error says it misread a complete, valid record
+                if st.fails == 0 && e.kind() != ErrorKind::Interrupted {
+                    done!(Some(mk(
+                        "deserialize/4b interrupted-read-is-retried-or-reported-as-interrupted",
+                        format!("Ok({}) or Err(Interrupted): the stream delivered the whole valid record, with {} EINTR", wv.short(), st.eintrs),
+                        format!("Err({}: {}) after consuming {} of {} bytes", errname(e), e, consumed, need)
                     )));
                 }
                 cnt.inc("probe_valid_record_lost_to_injected_error");
